@@ -69,6 +69,8 @@ def lift(model, req):
         return lift_resolver_errors()
     if "suggestion_list" in str(req.get("target", "")):
         return lift_suggestions()
+    if "coerce_input_value" in str(req.get("target", "")):
+        return lift_custom_scalar_errors()
     if ".parser." in str(req.get("target", "")).replace(":", ".") and not bodies:
         from .parser_replay import search
         return search()
@@ -84,6 +86,35 @@ def lift(model, req):
                 pass
             except Exception as e:  # noqa: BLE001
                 return {"confirmed": True, "entry": fn.__name__, "input": text,
+                        "observed": f"{type(e).__name__}: {e}"}
+    return {"confirmed": False}
+
+
+def lift_custom_scalar_errors():
+    """Custom scalars whose input coercion raises exceptions of odd classes on variable values
+    (directly, in a list, in an input object): each must become an invalid-variable error."""
+    import decimal
+    from graphql import GraphQLScalarType, build_schema, graphql_sync
+
+    class Odd(Exception):
+        pass
+    raisers = [KeyError("k"), OverflowError("o"), decimal.InvalidOperation(), Odd("odd"), ZeroDivisionError(),
+               AttributeError("a"), RuntimeError("r"), LookupError(), UnicodeError("u"), AssertionError("x")]
+    for exc in raisers:
+        def coerce(value, _exc=exc):
+            raise _exc
+        schema = build_schema("scalar S input I { s: S, l: [S] } type Query { f(s: S, l: [S], i: I): String }")
+        schema.type_map["S"].coerce_input_value = coerce
+        schema.type_map["S"].parse_value = coerce
+        for q, v in (("query($v: S){ f(s: $v) }", "x"), ("query($v: [S]){ f(l: $v) }", ["x"]),
+                     ("query($v: I){ f(i: $v) }", {"s": "x"}), ("query($v: I){ f(i: $v) }", {"l": ["x"]})):
+            try:
+                r = graphql_sync(schema, q, variable_values={"v": v})
+                assert r.data is None and r.errors
+            except Exception as e:  # noqa: BLE001
+                return {"confirmed": True, "entry": "graphql_sync",
+                        "input": {"query": q, "variables": {"v": v},
+                                  "schema": f"scalar S whose input coercion raises {type(exc).__name__}"},
                         "observed": f"{type(e).__name__}: {e}"}
     return {"confirmed": False}
 
